@@ -70,6 +70,24 @@ def generate(g, tier):
                 j = r.randrange(len(text)); text = text[:j] + r.choice(['"', '(', ')', '$', ',', '\t', '"""', '\n', ' ', '²', ' ', '\r', '\x0c']) + text[j:]
             case = dict(op='compile', opts=g.options(), src=dict(text=text), meta=dict(family='edited'))
         cases.append(case)
+    # document shapes: verbatim regions (`"""`) opened on the first line of the file or of a group, closed or not, with blank and
+    # whitespace-only lines before, inside and after them; blank lines at every position of a block
+    BL = ['', ' ', '\t', '    ', '        ']
+    for _ in range(count(tier, 150, 1500)):
+        inner = []
+        for _k in range(r.randint(0, 5)):
+            inner.append(r.choice(BL) if g.chance(0.4) else r.choice(['STRING a', '  STRING b', 'x', 'IF TRUE', '    deeper', '$STRING 1+', 'DELAY 5', 'REM c']))
+        close = ['"""'] if g.chance(0.8) else []
+        tail = [r.choice(BL + ['STRING after', 'ENTER', '"""', '    STRING indented'])] if g.chance(0.6) else []
+        where = r.choice(['file', 'file-after-blank', 'group', 'group', 'nested-group'])
+        if where == 'file': ls = ['"""'] + inner + close + tail
+        elif where == 'file-after-blank': ls = [r.choice(BL)] + ['"""'] + inner + close + tail
+        elif where == 'group':
+            cmd = r.choice(['STRING', 'STRINGLN', '$STRING', 'REM', 'DELAY', 'CTRL', 'IGNORE', 'FOO', 'PRINT', 'IF TRUE', 'REPEAT 2', 'FUNC f'])
+            ls = [cmd] + ['    ' + x for x in ['"""'] + inner + close] + tail
+        else:
+            ls = ['IF TRUE', '    STRING'] + ['        ' + x for x in ['"""'] + inner + close] + tail
+        cases.append(dict(op='compile', opts=g.options(), src=dict(text='\n'.join(ls)), meta=dict(family='shape')))
     # a fixed set of edge expressions in every evaluating context (always run)
     EDGE = ['()', '( )', '(())', '((', '))', '(', ')', '', ' ', '!', '!()', '!( )', '""', '"', '"' * 3, '-', '.', '-.', '1 +', '+ 1', '1 + + 2', ',', '1,', ',1', '1,,2',
             '(1,2),', 'TRUE FALSE', '1 2', 'a b', '$', '$$', '1 ==', '== 1', '<', '<=', '//', '^', '1 ^ ^ 2', '(1)(2)', '()()', '1()', '"a""b"', '"a" "b"', '5.5.5', '..', '1..2',
@@ -80,7 +98,7 @@ def generate(g, tier):
            'DEFAULT_DELAY {}', '$ALTCHAR {}']
     for e in EDGE:
         for cx in CTX:
-            if cx.startswith('$ENTER') and e == '10^400': continue      # the D19 probe below covers huge counts
+            if cx.startswith('$ENTER') and e in ('10^400', '10.0^400'): continue      # the D19 probe below covers huge counts
             cases.append(dict(op='compile', src=dict(text=cx.format(e)), meta=dict(family='edge')))
     # known-finding probes (each costs a timeout or a deep recursion): a few per run
     cases.append(dict(op='compile', src=dict(text='$STRING 10^5000'), meta=dict(family='probe', probe='huge-int-str', nocorr=True)))
